@@ -260,3 +260,28 @@ func VH_C17T() {
 	}
 	vCover("C17T:done")
 }
+
+// VH_C17L: looking a level up before it is registered (its name, a short tag,
+// a record logged at it) must not stand in the way of registering it later.
+func VH_C17L() {
+	vProduction()
+	defaultLog.SetLevel(OffLevel)
+	v := []Level{13, 100, -21}[vChoose(3)]
+	switch vChoose(4) {
+	case 1:
+		_ = v.String()
+	case 2:
+		_ = v.ShortTag(3)
+	case 3:
+		rec := &vRec{}
+		lg := New("x").(*logimp).Entry
+		lg.SetWriter(&recW{0, rec}).SetErrorWriter(&recW{0, rec}).SetLevel(TraceLevel)
+		lg.WriteThru(vCtx, v, vTime0(), 0, "m", nil)
+	}
+	err := RegisterLevel(v, "fresh")
+	vCover("C17L:registered")
+	vAssert(err == nil, "C17: an unused value and title are registered, whatever was looked up before")
+	if err == nil {
+		vRoundTrips(v, "fresh", false)
+	}
+}
